@@ -824,10 +824,10 @@ def c18(run):
 
 
 # ------------------------------------------------------------------------------------------- C17
-_DSL_TXT = {"copied": "copied()", "enumerate": "enumerate()", "map": "map(|x| x)", "rev": "rev()", "skip": "skip(1)",
+_DSL_TXT = {"copied": "copied()", "flatten": "flatten()", "enumerate": "enumerate()", "map": "map(|x| x)", "rev": "rev()", "skip": "skip(1)",
             "count": "count()", "next": "next()", "rfind": "rfind(|_| true)", "rfold": "rfold(0u32, |a, _| a)",
             "rposition": "rposition(|_| true)", "find": "find(|_| true)"}
-_DSL_SPUR = {"copied": "copied(1)", "enumerate": "enumerate(1)", "rev": "rev(1)", "count": "count(1)", "next": "next(1)"}
+_DSL_SPUR = {"copied": "copied(1)", "flatten": "flatten(1)", "enumerate": "enumerate(1)", "rev": "rev(1)", "count": "count(1)", "next": "next(1)"}
 _CONSUMERS = {"count", "next", "rfind", "rfold", "rposition", "find"}
 
 
@@ -836,6 +836,10 @@ def _dsl_program(r):
     # `copied` only type-checks directly on the slice source: other placements are not guard tests
     if "copied" in ms[1:] :
         return None
+    # `flatten` needs iterable items: only directly on a nested source
+    if "flatten" in ms[1:] or (ms and ms[0] == "copied" and "flatten" in ms):
+        return None
+    nested = bool(ms) and ms[0] == "flatten"
     parts = []
     for q, mname in enumerate(ms, 1):
         txt = _DSL_TXT[mname]
@@ -850,7 +854,8 @@ def _dsl_program(r):
         body = "let _ = konst::iter::eval!(&a%s);" % args
     else:
         body = "konst::iter::for_each!{_x in &a%s => }" % args
-    return "#![allow(warnings)]\npub fn f() { let a = [1u32, 2, 3]; %s }\n" % body
+    src = "[[1u32, 2], [3, 4]]" if nested else "[1u32, 2, 3]"
+    return "#![allow(warnings)]\npub fn f() { let a = %s; %s }\n" % (src, body)
 
 
 def _pm_program(r):
@@ -879,6 +884,11 @@ def _verdict_items(run):
         for fl in flavors:
             # the annotated form of a reference / wrong arity is a different misuse (type mismatch): still Rejected
             items.append(("d%d_%s" % (k, fl), gd.verdict_program(r, fl), r["verdict"], dict(r, flavor=fl, mac="destructure!")))
+            if r["isref"] and fl == "typed":
+                # the annotation may also name the reference type itself
+                for rm in (False, True):
+                    items.append(("d%d_typedref_%d" % (k, rm), gd.verdict_program(r, "typed_ref", refmut=rm), r["verdict"],
+                                  dict(r, flavor="typed_ref/" + ("&mut" if rm else "&"), mac="destructure!")))
             if r["isref"]:
                 # a `&mut` reference is a reference too
                 items.append(("d%d_%s_mut" % (k, fl), gd.verdict_program(r, fl, refmut=True), r["verdict"],
